@@ -24,6 +24,7 @@ type gen struct {
 	docs      []*model.Doc
 	smallDocs bool
 	nested    bool // some documents carry nested elements (several rows under one ID)
+	oddTokens bool // group-by values that look like syntax of the persisted formats ("200|/api", "12|", ...)
 }
 
 func newGen(seed uint64, stream string) *gen {
@@ -62,7 +63,11 @@ func (g *gen) doc(ts uint64) *model.Doc {
 		}
 	}
 	if g.r.Bool(0.8) {
-		d.Toks = append(d.Toks, model.Tok{F: "svc", V: []string{"alpha", "beta", "gamma"}[g.r.Intn(3)]})
+		svc := []string{"alpha", "beta", "gamma"}[g.r.Intn(3)]
+		if g.oddTokens && g.r.Bool(0.4) {
+			svc = []string{"200|/api", "12|", "|x", "a|b", "-1|y", "7", "0|alpha"}[g.r.Intn(7)]
+		}
+		d.Toks = append(d.Toks, model.Tok{F: "svc", V: svc})
 	}
 	if g.r.Bool(0.7) {
 		d.Toks = append(d.Toks, model.Tok{F: "num", V: fmt.Sprint(g.r.Range(-5, 40))})
